@@ -335,7 +335,34 @@ def ob_add_rpc_service(report):
 
         def m_disp(ex_, p_, call, k):
             k(p_, ex_.deref(p_, call.args[0]))
-        models = [(r'routing::Router::route$|^Router::route$', m_route), (r'Arguments::new$', m_args), (r'Argument::new_display$', m_disp),
+        def m_concat(ex_, p_, call, k):
+            # ["/", NAME, "/*rest"].concat() / .join(""): the same string algebra as format!
+            arr = MD.as_array(ex_, p_, call.args[0]) if isinstance(call.args[0], Ptr) else (call.args[0] if isinstance(call.args[0], Agg) else None)
+            if arr is None:
+                return NotImplemented
+            parts = []
+            for x in arr.fields:
+                for _ in range(3):
+                    if isinstance(x, Ptr):
+                        x = ex_.deref(p_, x)
+                if isinstance(x, Str):
+                    parts.append(z3.StringVal(x.s))
+                elif isinstance(x, z3.ExprRef) and z3.is_string(x):
+                    parts.append(x)
+                else:
+                    parts.append(z3.String(f'str({vname(x)})'))
+            if call.short.rsplit('::', 1)[-1].startswith('join'):
+                sep = call.args[1]
+                for _ in range(3):
+                    if isinstance(sep, Ptr):
+                        sep = ex_.deref(p_, sep)
+                if not (isinstance(sep, Str) and sep.s == ''):
+                    return NotImplemented
+            if not parts:
+                return k(p_, z3.StringVal(''))
+            k(p_, z3.Concat(*parts) if len(parts) > 1 else parts[0])
+        models = [(r'(^|::)slice::(<impl[^>]*>::)?(concat|join)(::<.*>)?$|<\[&str\] as (\w+::)*(Concat|Join)<.*>>::(concat|join)$', m_concat),
+                  (r'routing::Router::route$|^Router::route$', m_route), (r'Arguments::new$', m_args), (r'Argument::new_display$', m_disp),
                   (r'^format$|fmt::format$|must_use$', lambda ex_, p_, call, k: k(p_, call.args[0])),
                   (r'String as Deref>::deref$|String::as_str$', lambda ex_, p_, call, k: k(p_, ex_.deref(p_, call.args[0])))]
         ex = e2.executor('anemo', models, max_depth=2, strings=True)
@@ -352,6 +379,8 @@ def ob_add_rpc_service(report):
             if not (isinstance(pth, z3.ExprRef) and z3.is_string(pth)):
                 return ob.done([ex], 'inconclusive', f'registered pattern is not a decodable string: {vrepr(pth)}', paths=len(res))
             names = [c for c in _string_consts(pth)]
+            if any(re.match(r'(concat|join|format|to_string|to_owned|from|into)\(', str(c)) for c in names):
+                return ob.done([ex], 'inconclusive', f'the registered pattern is built by a call this obligation does not model: {str(names[0])[:60]}', paths=len(res))
             if len(names) != 1:
                 return ob.done([ex], 'inconclusive', f'pattern depends on {names}', paths=len(res))
             sn = names[0]
